@@ -33,7 +33,7 @@ ASSUMPTIONS = [
     "failures of begin_read/begin_write (file deleted under the handle) are not among the listed failure sources",
 ]
 REQUIRED = {"mp.sessions": 200, "mp.writer-sessions": 100, "mp.reader-between-writers": 5, "mp.cross-process-adjacent": 50,
-            "seq.sequences": 1000, "fail.cases": 30, "fail.fresh-process-acquired": 30}
+            "seq.sequences": 1000, "mp.schedules-with-racing-creation": 2, "lateopen.schedules": 4, "fail.cases": 30, "fail.fresh-process-acquired": 30}
 CHUNK_TIMEOUT = 600
 TECHNIQUE = ("runtime monitoring: recorded session-interval histories from real processes + offline checker (mutual exclusion, "
              "conservation, visibility); fault injection at each session step with a fresh-process lock probe")
@@ -48,22 +48,24 @@ def plan(tier, seed):
     if tier == "quick":
         for i, (p, s) in enumerate([(8, 14), (12, 9), (16, 7), (8, 10)]):
             specs.append({"kind": "mp", "chunk": i, "procs": p, "sessions": s, "payload": "mlib" if i == 3 else "bytes",
-                          "timeout": 300})
+                          "timeout": 300, "race_create": i % 2 == 1})
         for h in range(12):
             specs.append({"kind": "seq", "first": h, "k": 4})
     else:
         for i in range(16):
             specs.append({"kind": "mp", "chunk": i, "procs": [8, 12, 16, 16][i % 4], "sessions": 60,
-                          "payload": "mlib" if i % 4 == 3 else "bytes", "timeout": 900})
+                          "payload": "mlib" if i % 4 == 3 else "bytes", "timeout": 900, "race_create": i % 2 == 1})
         for h in range(12):
             specs.append({"kind": "seq", "first": h, "k": 5})
     for i in range(8):
         specs.append({"kind": "fail", "chunk": i, "of": 8})
+    for i in range(4 if tier == "quick" else 16):
+        specs.append({"kind": "lateopen", "chunk": i, "timeout": 240})
     return specs
 
 
 def run_chunk(spec, ctx):
-    {"mp": run_mp, "seq": run_seq, "fail": run_fail}[spec["kind"]](spec, ctx)
+    {"mp": run_mp, "seq": run_seq, "fail": run_fail, "lateopen": run_lateopen}[spec["kind"]](spec, ctx)
 
 
 # ------------------------------------------------------------------------------------------------
@@ -82,8 +84,11 @@ def run_mp(spec, ctx):
     (root / "logs").mkdir()
     os.symlink(root / "data", root / "link")
     path = root / "data" / ("lib.mlib" if spec["payload"] == "mlib" else "lib.ukv")
-    # the file is created by the first handle constructed; create it here so all spellings resolve
-    if spec["payload"] == "mlib":
+    # In every other schedule the library does not exist yet: the workers' handle constructors race to create it
+    # (whoever wins, no session that completed afterwards may lose its records to a late creator)
+    if spec.get("race_create"):
+        ctx.count("mp.schedules-with-racing-creation")
+    elif spec["payload"] == "mlib":
         import molli as ml
         ml.MoleculeLibrary(path, readonly=False, overwrite=True)
     else:
@@ -102,7 +107,7 @@ def run_mp(spec, ctx):
         cwd, p = spellings[w % len(spellings)]
         wspec = {"wid": w, "seed": rng.randrange(2**31), "cwd": cwd, "path": p, "log": str(root / "logs" / f"w{w}.jsonl"),
                  "sessions": spec["sessions"], "p_write": 0.7, "bufsize": rng.choice([-1, 0, 4096, 10**6]),
-                 "max_sleep": 0.004, "payload": spec["payload"]}
+                 "max_sleep": 0.004, "payload": spec["payload"], "lock_delay": 0.03 if spec.get("race_create") else 0}
         procs.append(subprocess.Popen([sys.executable, "-m", "vmon.models.c04_worker", json.dumps(wspec)], env=env,
                                       stdout=subprocess.DEVNULL, stderr=subprocess.PIPE, text=True))
     bad_exit = []
@@ -184,6 +189,106 @@ def run_mp(spec, ctx):
                                "reader_between_writers": rbw, "order_head": sig[:60]}])
     ctx.case(case, dkey=sig, nontrivial=adj >= 2 and rbw >= 1,
              sample={"procs": spec["procs"], "sessions": len(order), "order_head": sig[:80], "records": len(want)})
+
+
+# ------------------------------------------------------------------------------------------------
+# lateopen: a handle whose construction overlaps the creation of the library and its first completed session
+
+LATE_COMMON = r"""
+import sys, os, time, json
+sys.path[:0] = %(syspath)r
+from molli.storage import Collection, UkvCollectionBackend
+root, path = %(root)r, %(path)r
+def touch(name):
+    open(os.path.join(root, name), "w").close()
+def wait_for(name, timeout=60):
+    t0 = time.time()
+    while not os.path.exists(os.path.join(root, name)):
+        if time.time() - t0 > timeout:
+            print(json.dumps({"error": "timed out waiting for " + name})); sys.exit(0)
+        time.sleep(0.005)
+"""
+
+LATE_G = LATE_COMMON + r"""
+# G holds the library's lock file before the library exists (POSIX locks are per process: G's own handle can still take
+# it, and the release at the end of G's first session frees it for everybody)
+from molli._aux.lock import rwlock
+from fasteners import InterProcessReaderWriterLock
+gate = InterProcessReaderWriterLock(rwlock(path))
+assert gate.acquire_write_lock(timeout=20)
+touch("g_locked")
+wait_for("v_constructing")
+time.sleep(%(settle)r)                      # let V run into the lock (only shapes the schedule, decides nothing)
+lib = Collection(path, UkvCollectionBackend, readonly=False, bufsize=%(bufsize)r)
+with lib.writing(timeout=20):
+    for i in range(%(n)r):
+        lib["g%%d" %% i] = ("value-of-g%%d" %% i).encode() * 3
+touch("g_done")
+print(json.dumps({"ok": True}))
+"""
+
+LATE_V = LATE_COMMON + r"""
+wait_for("g_locked")
+touch("v_constructing")
+lib = Collection(path, UkvCollectionBackend, readonly=False, bufsize=%(bufsize)r)    # blocks on G's lock
+waited_for_g = os.path.exists(os.path.join(root, "g_done"))
+wait_for("g_done")
+with lib.reading(timeout=20):
+    seen = {k: lib[k].decode() for k in lib.keys()}
+with lib.writing(timeout=20):
+    lib["v0"] = b"value-of-v0"
+print(json.dumps({"seen": seen, "constructor_returned_after_g_session": waited_for_g}))
+"""
+
+
+def run_lateopen(spec, ctx):
+    from vmon.models.kvmap import scan, ScanError
+
+    case = ("lateopen", spec["chunk"])
+    if not ctx.want(case):
+        return
+    rng = ctx.rng(*case)
+    root = ctx.tmp / "late"
+    root.mkdir()
+    path = root / "lib.ukv"
+    n = rng.randrange(1, 4)
+    par = {"syspath": [p for p in sys.path if p], "root": str(root), "path": str(path), "n": n,
+           "bufsize": rng.choice([-1, 0, 4096]), "settle": rng.choice([0.3, 0.6])}
+    g = subprocess.Popen([sys.executable, "-c", LATE_G % par], stdout=subprocess.PIPE, stderr=subprocess.PIPE, text=True)
+    v = subprocess.Popen([sys.executable, "-c", LATE_V % par], stdout=subprocess.PIPE, stderr=subprocess.PIPE, text=True)
+    outs = []
+    for name, proc in (("G", g), ("V", v)):
+        try:
+            out, err = proc.communicate(timeout=120)
+        except subprocess.TimeoutExpired:
+            g.kill(), v.kill()
+            ctx.inconclusive.append(f"lateopen {spec['chunk']}: {name} did not finish (watchdog)")
+            return
+        try:
+            outs.append(json.loads(out.strip().splitlines()[-1]))
+        except Exception:  # noqa
+            ctx.violation(f"lateopen:{name}-process-failed", case=case, stderr=(err or "")[-300:])
+            return
+    if "error" in outs[0] or "error" in outs[1]:
+        ctx.inconclusive.append(f"lateopen {spec['chunk']}: {outs}")
+        return
+    want = {f"g{i}": f"value-of-g{i}" * 3 for i in range(n)}
+    seen = outs[1]["seen"]
+    ctx.count("lateopen.schedules")
+    if outs[1]["constructor_returned_after_g_session"]:
+        ctx.count("lateopen.constructor-overlapped-first-session")
+    ctx.case(case, dkey=(n, par["bufsize"], outs[1]["constructor_returned_after_g_session"]), nontrivial=True,
+             sample={"records_of_first_session": n, "late_constructor_overlapped": outs[1]["constructor_returned_after_g_session"]})
+    if seen != want:
+        ctx.violation("lateopen:completed-session-records-lost-to-a-late-opener", case=case,
+                      missing=sorted(set(want) - set(seen)), extra=sorted(set(seen) - set(want)))
+    try:
+        _, _, _, recs, _ = scan(path.read_bytes())
+        got = {k.decode(): val.decode() for k, val, _ in recs}
+        if got != {**want, "v0": "value-of-v0"}:
+            ctx.violation("lateopen:final-file-differs", case=case, missing=sorted(set(want) - set(got)))
+    except ScanError as e:
+        ctx.violation("lateopen:final-file-not-a-clean-record-sequence", case=case, err=str(e))
 
 
 # ------------------------------------------------------------------------------------------------
